@@ -67,13 +67,13 @@ Theorem C12_refuted_filtered_name :
 Proof. exact C12Facts.pinned_refuted_dotdot. Qed.
 Print Assumptions C12_refuted_filtered_name.
 
-(* D26 (before the repair): the handler chain takes a child — stat says regular file — but building its
+(* D27 (before the repair): the handler chain takes a child — stat says regular file — but building its
    entry fails with OSError (the HTML title of an unreadable file, a *.gophermap gone since the stat):
    the whole listing is answered with that error *)
 Theorem C12_unreadable_refuted :
-  dir_listing head_before_d26 shipped_ignore d26_world d26_enum = Raise IOErr /\
-  umn_listing head_before_d26 shipped_ignore StripNone d26_world d26_enum = Raise IOErr /\
-  exists l, dir_listing repaired shipped_ignore d26_world d26_enum = Ok l /\
+  dir_listing head_before_d27 shipped_ignore d27_world d27_enum = Raise IOErr /\
+  umn_listing head_before_d27 shipped_ignore StripNone d27_world d27_enum = Raise IOErr /\
+  exists l, dir_listing repaired shipped_ignore d27_world d27_enum = Ok l /\
             map fst l = [lit "a.txt"%string; lit "z.txt"%string].
 Proof. exact C12Facts.unreadable_refuted. Qed.
 Print Assumptions C12_unreadable_refuted.
